@@ -59,6 +59,7 @@ func runC07(p *core.Prog, r *core.Result) {
 		"R7.8 scalar opcodes decode to the same Starlark type that selected them in the encoder",
 		"R7.9 operand-stack discipline (bytecode-verifier style): with the stack effects read off the decoder's cases, every encoder path leaves exactly one value per encoded value and stack heights agree at every join",
 		"R7.10 no slice of the decoder's operand stack or memo escapes into a decoded value",
+		"R7.13 every value the decoder pushes is built from the current opcode's payload, the operand stack, the memo or the host unpickler - no other decoder-wide state (interning tables, caches) can supply it",
 		"R7.12 the encoder's memo is consulted and filled only under the value being encoded itself (never under a key constructed from its contents), so values of different types never share a memo entry",
 		"R7.11 decoder cases that fill a container in place (push nothing) only shorten the operand stack: no stack slot is overwritten, so the object stays the one its memo entry refers to (sharing and self-reference survive)",
 	}
@@ -273,6 +274,9 @@ func runC07(p *core.Prog, r *core.Result) {
 
 	// ---- R7.12 memo keyed by identity
 	checkMemoIdentity(p, r)
+
+	// ---- R7.13 decoded values come from the payload, the stack or the memo
+	checkDecodedFromPayload(p, r)
 }
 
 func checkMemoParity(p *core.Prog, r *core.Result, ops *opTable, dt *decoderTable, memoizeE *ssa.Function) {
